@@ -117,6 +117,11 @@ fn hln<T: Dom>(n: usize, k: usize) {
         if let Some(('+', _, frac)) = o.bin_parts() { if let Some(('/', num, den)) = frac.bin_parts() { if let (Some(('*', lm, _)), Some(('-', mx, mn2))) = (num.bin_parts(), den.bin_parts()) { if let Some(('-', last, mn)) = lm.bin_parts() {
             alts.push(Cond::And(vec![eq(last, x), eq(mn, mn2), is_min(mn, w), is_max(mx, w), eq(o * (mx - mn), two * (x - mn) - (mx - mn))]));
         } } } }
+        // the boundary cases, where the quotient folds to a constant: newest value is the window's minimum / maximum / the window is flat
+        let not_flat = Cond::Or(w.iter().map(|y| Cond::Ne(*y, x)).collect());
+        alts.push(Cond::And(vec![eq(o, -T::one()), is_min(x, w), not_flat.clone()]));
+        alts.push(Cond::And(vec![eq(o, T::one()), is_max(x, w), not_flat]));
+        alts.push(Cond::And(vec![eq(o, T::zero()), Cond::And(w.iter().map(|y| eq(*y, x)).collect())]));
         alts.push(Cond::Or(cases));
         T::oblige_alt(&format!("HLNormalizer(N={n}) t={t}: out == 2(x-min)/(max-min)-1 over the last min(t,N) values (0 if flat)"), alts);
     }
@@ -231,8 +236,9 @@ pub fn units(tier: Tier, seed: u64) -> Vec<Unit> {
         u.push(unit!(format!("C02/WelfordOnline/N={n}/k={kw}"), welford(n, kw)));
         u.push(unit!(format!("C02/Roc/N={n}/k={k}"), roc(n, k)));
         u.push(unit!(format!("C02/BinaryEntropy/N={n}/k={k}"), binary_entropy(n, k)));
-        u.push(unit!(format!("C02/Vst/N={n}/k={k}"), vst(n, k, false)));
-        u.push(unit!(format!("C02/Vsct/N={n}/k={k}"), vst(n, k, true)));
+        let kv = if n <= 4 { k } else { n + 2 };
+        u.push(unit!(format!("C02/Vst/N={n}/k={kv}"), vst(n, kv, false)));
+        u.push(unit!(format!("C02/Vsct/N={n}/k={kv}"), vst(n, kv, true)));
         if n <= 4 { u.push(unit!(format!("C02/HLNormalizer/N={n}/k={k}"), hln(n, k))); }
     }
     // larger windows and streams much longer than the window: the comparison path of pseudo-random sample inputs (concolic);
